@@ -303,7 +303,7 @@ def handle(w, a):
 def boot(w, cmd, d, a):
     if cmd in (0x02, 0xA4):
         # echo_ok: True, or how the echo is wrong: False (payload damaged), "hdr-cmd" / "hdr-cla"
-        # (payload intact under another command / class byte), "short" (cut)
+        # (payload intact under another command / class byte), "short" (cut), "long" (bytes added)
         if w.echo_ok is True:
             return a
         if w.echo_ok == "hdr-cmd":
@@ -312,6 +312,8 @@ def boot(w, cmd, d, a):
             return bytes([0xE0]) + a[1:]
         if w.echo_ok == "short":
             return a[:-1]
+        if w.echo_ok == "long":
+            return a + b"\x44"        # the whole message, and more
         return a[:-1] + b"X"
     if cmd in (0x45, 0xA2):
         return bytes([0x80, cmd, w.retries])
